@@ -1172,7 +1172,7 @@ func (e *ssaEvent) string(format []string) string {
 			case ssaEventFormatNameEffect:
 				v = e.effect
 			case ssaEventFormatNameName:
-				v = e.name
+				v = strings.ReplaceAll(e.name, ",", ";") // a comma would shift the columns of the row
 			case ssaEventFormatNameStyle:
 				v = e.style
 			case ssaEventFormatNameText:
